@@ -273,7 +273,7 @@ func (g *gMux) opWriteTables() {
 	g.pos = len(g.sink.buf)
 }
 
-// vMuxData draws a MuxerData: afCase 0 none, 1 RAI flag symbolic + PCR, 2 private data (3 bytes) + RAI, 3 big private
+// vMuxData draws a MuxerData: afCase 0 none, 1 RAI flag symbolic + PCR, 2 private data (3 bytes) + RAI, 4 private-data flag without data, 3 big private
 // data (leaves no room for the PES header); hdrCase 0 no timestamps, 1 PTS, 2 PTS+DTS
 func vMuxData(pid uint16, afCase, hdrCase, plen int) (*MuxerData, gUnit) {
 	u := gUnit{pid: pid}
@@ -291,6 +291,10 @@ func vMuxData(pid uint16, afCase, hdrCase, plen int) (*MuxerData, gUnit) {
 		u.hasAF = true
 		u.priv = vnondetBytes(175)
 		d.AdaptationField = &PacketAdaptationField{HasTransportPrivateData: true, TransportPrivateDataLength: 175, TransportPrivateData: u.priv}
+	case 4:
+		// private-data flag set, no private data bytes
+		u.hasAF, u.rai = true, vnondetBool()
+		d.AdaptationField = &PacketAdaptationField{RandomAccessIndicator: u.rai, HasTransportPrivateData: true, TransportPrivateDataLength: 0, TransportPrivateData: []byte{}}
 	}
 	oh := &PESOptionalHeader{MarkerBits: 2}
 	switch hdrCase {
@@ -403,7 +407,7 @@ func (g *gMux) opWritePacket(payloadLen int) {
 	g.opWritePacketAF(payloadLen, 0)
 }
 
-// opWritePacketAF: afKind 0 none, 1 PCR + 2 stuffing bytes, 2 one-byte adaptation field, 3 private data (5 bytes);
+// opWritePacketAF: afKind 0 none, 1 PCR + 2 stuffing bytes, 2 one-byte adaptation field, 3 private data (5 bytes), 4 private-data flag with empty data;
 // over = how many bytes the payload exceeds the room left by header and adaptation field
 func (g *gMux) opWritePacketAF(payloadLen, afKind int) {
 	g.rawPackets = true
@@ -422,6 +426,11 @@ func (g *gMux) opWritePacketAF(payloadLen, afKind int) {
 	case 3:
 		m.hasAF = true
 		m.af = mAF{hasPriv: true, priv: vnondetBytes(5)}
+		room = 184 - 1 - refAFLen(&m.af)
+	case 4:
+		// transport_private_data_flag set with transport_private_data_length 0 (legal, unusual)
+		m.hasAF = true
+		m.af = mAF{hasPriv: true, priv: []byte{}, rai: vnondetBool()}
 		room = 184 - 1 - refAFLen(&m.af)
 	}
 	if afKind != 0 {
@@ -497,6 +506,9 @@ func (g *gMux) demuxAll() {
 				continue
 			}
 			vassert("C01.demux.pes.extra", k < len(want))
+			if k >= len(want) {
+				break
+			}
 			u := want[k]
 			k++
 			vassert("C01.demux.pes.payload", vBytesEq(d.PES.Data, u.payload))
@@ -724,7 +736,7 @@ func HarnessMuxStep(op, k, period, level int) {
 		d, u := vMuxData(pids[vrange(0, 1)], 3, 1, 20)
 		g.opWriteData(d, u)
 	case 7:
-		g.opWritePacketAF(vchoose(184, 185, 186), vrange(0, 3))
+		g.opWritePacketAF(vchoose(184, 185, 186), vrange(0, 4))
 	}
 	g.checkInv()
 	vreach("mux.step.end")
